@@ -249,4 +249,133 @@ def wakeWeak (e : Option State) (t : Nat) : Option State := e.map (fun s => wake
     `Spawner::dead()`); otherwise the task is pushed to the back of the queue -/
 def spawnWeak (e : Option State) (sc : Script) : Option State := e.map (fun s => spawnNew s s.ntasks sc)
 
+/-! ### reference counting of `Rc<Task>` (what `waker.rs` maintains), seen from outside -/
+
+/-- How many `Rc<Task>` of task `t` exist at a step boundary: one per queue entry, one per waker
+    registered with a channel `< nch`, one per relay holding its waker. -/
+def refs (s : State) (nch : Nat) (t : Nat) : Nat :=
+  s.queue.count t + ((List.range nch).map fun k => (s.waiters k).count t).sum +
+  ((List.range s.ntasks).filter fun c => s.relay c == .polled t).length
+
+/-- an unfinished task nothing refers to: its `Task` (future, sender) has been dropped -/
+def lostB (s : State) (nch : Nat) (t : Nat) : Bool := (s.fut t).isSome && refs s nch t == 0
+
+/-! ### operations from outside any poll (the `v` cases of the harness) -/
+
+/-- operation on the executor or on the i-th waker registered with channel k -/
+inductive XOp where
+  | step | rus
+  | wake (k i : Nat) | byRef (k i : Nat) | clone (k i : Nat) | drop (k i : Nat)
+  | signal (k : Nat)
+  | dropExec
+  | try_ (c : Nat)
+  | spawn
+  deriving DecidableEq, Repr
+
+/-- the task system plus "the executor has been dropped" -/
+structure XState where
+  s : State
+  dead : Bool := false
+
+/-- after the executor is gone nothing is queued any more: `Task::wake` finds no executor -/
+def XState.settle (x : XState) : XState := if x.dead then { x with s := { x.s with queue := [] } } else x
+
+/-- `Receiver::try_receive` on the receiver of task `c` -/
+def tryRecvTask (s : State) (nch : Nat) (c : Nat) : State × Except TryErr Nat :=
+  let r := tryReceive (s.relay c) ((s.fut c).isSome && !lostB s nch c)
+  ({ s with relay := upd s.relay c r.1,
+            delivered := upd s.delivered c (s.delivered c + (if r.2.isOk then 1 else 0)) }, r.2)
+
+/-- one outside operation that is not a step of the executor (those are `step` / `runUntilStalled`) -/
+def xApply (x : XState) (nch : Nat) : XOp → XState
+  | .wake k i =>
+    match (x.s.waiters k)[i]? with
+    | none => x
+    | some t => XState.settle { x with s := wake { x.s with waiters := upd x.s.waiters k ((x.s.waiters k).eraseIdx i) } t }
+  | .byRef k i =>
+    match (x.s.waiters k)[i]? with
+    | none => x
+    | some t => XState.settle { x with s := wake x.s t }
+  | .clone k i =>
+    match (x.s.waiters k)[i]? with
+    | none => x
+    | some t => { x with s := { x.s with waiters := upd x.s.waiters k (x.s.waiters k ++ [t]) } }
+  | .drop k i => { x with s := { x.s with waiters := upd x.s.waiters k ((x.s.waiters k).eraseIdx i) } }
+  | .signal k => XState.settle { x with s := signal x.s k }
+  | .dropExec => XState.settle { x with dead := true }
+  | .try_ c => { x with s := (tryRecvTask x.s nch c).1 }
+  | .spawn =>
+    match x.s.pool with
+    | [] => x
+    | sc :: rest =>
+      match spawnWeak (if x.dead then none else some { x.s with pool := rest }) sc with
+      | some s' => { x with s := s' }
+      | none => x
+  | .step => x
+  | .rus => x
+
+/-! ### the forwarder alone (the `f` cases of the harness) -/
+
+inductive FOp where
+  | send | dropSender | dropReceiver | try_ | poll (w : Nat)
+  deriving DecidableEq, Repr
+
+/-- a `Sender`/`Receiver` pair: the relay, which halves still exist, ghost counters -/
+structure FState where
+  relay : Relay := .pending
+  tx : Bool := true
+  rx : Bool := true
+  /-- ghost: how often waker `w` has been woken -/
+  woken : Nat → Nat := fun _ => 0
+  /-- ghost: number of wake-ups issued by `Sender::send` -/
+  nwakes : Nat := 0
+  /-- ghost: values handed out by `try_receive` / the receiver's `poll` -/
+  got : List Nat := []
+  /-- ghost: `Sender::send` reached `unreachable!()` -/
+  bad : Bool := false
+
+/-- `Sender::send` on the relay alone: new relay, the waker to wake, `unreachable!()` reached -/
+def relaySend (r : Relay) (v : Nat) : Relay × Option Nat × Bool :=
+  match r with
+  | .pending => (.computed v, none, false)
+  | .polled w => (.computed v, some w, false)
+  | _ => (r, none, true)
+
+/-- one operation and its observation (`.` = the half needed is gone) -/
+def fstep (f : FState) : FOp → FState × String
+  | .send =>
+    if !f.tx then (f, ".")
+    else if !f.rx then ({ f with tx := false }, "back")
+    else
+      let r := relaySend f.relay 7
+      ({ f with tx := false, relay := r.1, bad := f.bad || r.2.2,
+                woken := match r.2.1 with | some w => upd f.woken w (f.woken w + 1) | none => f.woken,
+                nwakes := match r.2.1 with | some _ => f.nwakes + 1 | none => f.nwakes }, "ok")
+  | .dropSender => if f.tx then ({ f with tx := false }, "-") else (f, ".")
+  | .dropReceiver => if f.rx then ({ f with rx := false }, "-") else (f, ".")
+  | .try_ =>
+    if !f.rx then (f, ".")
+    else
+      let r := tryReceive f.relay f.tx
+      match r.2 with
+      | .ok v => ({ f with relay := r.1, got := f.got ++ [v] }, s!"v{v}")
+      | .error .notSent => (f, "NS")
+      | .error .senderDropped => (f, "SD")
+      | .error .alreadyReceived => (f, "AR")
+  | .poll w =>
+    if !f.rx then (f, ".")
+    else
+      let r := recvPoll f.relay w
+      if r.2.2 then (f, "panic")
+      else match r.2.1 with
+        | some v => ({ f with relay := r.1, got := f.got ++ [v] }, s!"rdy{v}")
+        | none => ({ f with relay := r.1 }, "pend")
+
+def frun : FState → List FOp → FState
+  | f, [] => f
+  | f, op :: ops => frun (fstep f op).1 ops
+
+/-- clones of waker `w` the relay holds (the relay lives as long as the receiver) -/
+def FState.held (f : FState) (w : Nat) : Nat := if f.rx && f.relay == .polled w then 1 else 0
+
 end YashModel.Executor
